@@ -118,6 +118,11 @@ pub struct Ctx {
 /// BufReader's buffer, a hasher, an error value).
 pub const CALL_ALLOWANCE: u64 = 4096;
 
+/// Stack size of every thread that executes scenarios (Rust's default for
+/// spawned threads, made explicit so that it does not depend on the
+/// environment and is the same in batches, children and replays).
+pub const RUN_STACK: usize = 2 * 1024 * 1024;
+
 /// Measures the bytes one library call allocates (see `alloc_meter`).
 pub struct Work {
     a0: u64,
@@ -680,7 +685,7 @@ pub fn run_batch<P: Property>(p: &P, opts: &Opts) -> BatchReport {
             let slots = &slots;
             let next = &next;
             let merged = &merged;
-            handles.push(s.spawn(move || {
+            handles.push(std::thread::Builder::new().stack_size(RUN_STACK).spawn_scoped(s, move || {
                 let mut acc: Acc<P::Sc> = Acc::new();
                 let slot = &slots[w];
                 loop {
@@ -709,7 +714,7 @@ pub fn run_batch<P: Property>(p: &P, opts: &Opts) -> BatchReport {
                     }
                 }
                 merged.lock().unwrap().push(acc);
-            }));
+            }).expect("cannot start a worker thread"));
         }
         // watchdog: the only wall-clock element.  A run busy for longer than
         // hang_ms is re-executed alone in a child process before anything is
